@@ -226,18 +226,20 @@ def main(tier, seed):
                          "triangle_Bfield, dipole_Hfield; ASSUMED for current_circle_Hfield, current_polyline_Hfield")
     rep.assume("Cylinder / CylinderSegment / TriangularMesh linearity: numeric stand-in only (polarization re-parametrised through "
                "arctan2/sqrt before the core; mesh wrapper outside the row-generic subset)")
-    rep.assume("sumup = np.sum(axis=0) by NumPy's contract; collection reduction loop: bounded term-exact stand-in")
+    rep.assume("sumup = np.sum(axis=0) by NumPy's contract; the collection slice-sum/delete loop is proved by an inductive invariant (checks/c05_loop.py); "
+               "nested flattening (format_src_inputs / format_obj_input) only in the bounded term-exact stand-in")
     rep.explanation = "additivity + oddness of 7 wrappers (z3, linear arithmetic) ; reductions over sources/collections bounded term-exact"
     from checks import c06_cores
     from contracts.bhjm import CORES
 
     fails = run_parallel(rep, [(nm, (lambda r, nm=nm: linearity(r, nm))) for nm in EXC] +
-                         [(f"core.{cn}", (lambda r, cn=cn: c06_cores.linearity(r, cn))) for cn in CORES])
+                         [(f"core.{cn}", (lambda r, cn=cn: c06_cores.linearity(r, cn))) for cn in CORES] +
+                         [("collection-loop", lambda r: __import__("checks.c05_loop", fromlist=["run"]).run(r, tier))])
     bad = native_linearity(seed)
     rep.standin("numeric linearity in the excitation for every class (incl. Cylinder, CylinderSegment, TriangularMesh)", "10 classes x 3 excitation patterns x B,H",
                 60, 60, "random excitations incl. cancelling and axis-aligned ones", [dict(cls="Cylinder", pattern="e2=-e1+(0,0,.5)")], failures=len(bad))
     for f in fails:
-        cls = f["wrapper"]
+        cls = f.get("wrapper", "level2")
         hit = [b for b in bad if b.startswith(cls + ".")]
         if hit:
             rep.violation(f["name"], {"why": f["why"], "native_result": hit[0], "script": REPLAY.format(seed=seed, classes=[cls])})
@@ -246,6 +248,13 @@ def main(tier, seed):
     if not fails:
         for b in bad[:2]:
             rep.violation("standin.native-linearity", {"native_result": b, "script": REPLAY.format(seed=seed, classes=None)})
+    from checks.c06 import REPLAY_TM, native_trimesh
+
+    bad_tm = native_trimesh(seed)
+    rep.standin("several TriangularMesh magnets in one call: each entry equals the mesh alone (so lists, sumup and Collections are the sums of the single fields)",
+                "4 adversarial mesh families x all ordered pairs/triples", 4 * 12 * 2 * 4, 4 * 12 * 2, "as C06", [dict(family="concentric cubes")], failures=len(bad_tm), exhaustive=True)
+    if bad_tm:
+        rep.violation("standin.trimesh-superposition", {"native_result": bad_tm[0], "script": REPLAY_TM.format(seed=seed)})
     ns = level2.harness_ns()
     nst, nel, lfails, sample = level2.sweep(ns, tier, seed + 5, "all", fields=("B",), sumups=(False, True), aggs=(None,))
     level2.report(rep, "superposition: collection entries = formal sum of their leaves; sumup = sum over entries (term-exact)", nst, nel, lfails, sample,
